@@ -413,7 +413,9 @@ fn charstr_cases(out: &mut Out, r: &mut Rng, n: u64) {
 
 #[derive(Clone, Debug)]
 enum F { U8(u8), U16(u16), U32(u32), Fixed(Vec<u8>), Name(Labels), Str(Vec<u8>), Strs(Vec<Vec<u8>>), Pfx(Vec<u8>), Tail(Vec<u8>, usize),
-         Bitmap(Vec<u16>), Params(Vec<(u16, Vec<u8>)>), Tag(Vec<u8>) }
+         Bitmap(Vec<u16>), Params(Vec<(u16, Vec<u8>)>), Tag(Vec<u8>),
+         /// IPSECKEY: gateway type, algorithm, gateway (nothing / 4 / 16 octets / name)
+         Gw(u8, u8, Vec<u8>, Labels) }
 
 fn bitmap_wire(ts: &[u16]) -> Vec<u8> {
     let mut v: Vec<u16> = ts.to_vec(); v.sort(); v.dedup();
@@ -441,6 +443,8 @@ fn f_wire(f: &F, v: &mut Vec<u8>) {
         F::Str(s) | F::Pfx(s) | F::Tag(s) => { v.push(s.len() as u8); v.extend_from_slice(s); }
         F::Strs(ss) => for s in ss { v.push(s.len() as u8); v.extend_from_slice(s); },
         F::Bitmap(ts) => v.extend_from_slice(&bitmap_wire(ts)),
+        F::Gw(kind, alg, addr, name) => { v.push(*kind); v.push(*alg);
+            match kind { 1 => v.extend_from_slice(&addr[..4]), 2 => v.extend_from_slice(&addr[..16]), 3 => v.extend_from_slice(&wire_abs(name)), _ => {} } }
         F::Params(ps) => for (k, val) in ps { v.extend_from_slice(&k.to_be_bytes()); v.extend_from_slice(&(val.len() as u16).to_be_bytes()); v.extend_from_slice(val); },
     }
 }
@@ -461,6 +465,7 @@ fn gen_f(r: &mut Rng, k: &str) -> F {
         "tail1" => F::Tail(gen_small(r, 1, 6), 1),
         "bitmap" => F::Bitmap(gen_types(r)),
         "tag" => { let n = r.range(1, 5) as usize; F::Tag((0..n).map(|_| *r.pick(b"issuewildIODEF0129aAzZ")).collect()) }
+        "gw" => F::Gw(r.below(4) as u8, r.range(1, 2) as u8, r.bytes(16), gen_name(r)),
         "params" => { let mut ks: Vec<u16> = (0..r.below(3)).map(|_| r.range(7, 12) as u16).collect(); ks.sort(); ks.dedup();
                       F::Params(ks.into_iter().map(|k| (k, gen_small(r, 0, 4))).collect()) }
         _ => unreachable!(),
@@ -482,6 +487,12 @@ fn near_f(r: &mut Rng, f: &F) -> F {
         F::Tag(s) => { let mut c = near_octets(r, s, 1, 15); for b in c.iter_mut() { if !b.is_ascii_alphanumeric() { *b = b'x'; } } F::Tag(c) }
         F::Tail(t, min) => F::Tail(near_octets(r, t, *min, 300), *min),
         F::Bitmap(ts) => { let mut c = ts.clone(); if r.chance(1, 2) || c.is_empty() { c.push(*r.pick(&[1u16, 2, 3, 46, 47, 256, 1234])); } else { c.pop(); } F::Bitmap(c) }
+        F::Gw(k, alg, addr, name) => match r.below(6) {
+            0 => F::Gw((k + 1) % 4, *alg, addr.clone(), name.clone()),
+            1 => F::Gw(*k, 3 - alg, addr.clone(), name.clone()),
+            2 => { let mut c = addr.clone(); let i = r.below(if *k == 1 { 4 } else { 16 }) as usize; c[i] = c[i].wrapping_add(1); F::Gw(*k, *alg, c, name.clone()) }
+            _ => F::Gw(*k, *alg, addr.clone(), near_name(r, name)),
+        },
         F::Params(ps) => { let mut c = ps.clone(); if c.is_empty() || r.chance(1, 3) { let k = c.last().map_or(7, |x| x.0 + 1); c.push((k, gen_small(r, 0, 3))); }
             else { let i = r.below(c.len() as u64) as usize; c[i].1 = near_octets(r, &c[i].1, 0, 20); } F::Params(c) }
     }
@@ -497,7 +508,7 @@ const TYPES: &[(u16, &str, &[&str])] = &[
     (50, "nsec3", &["u8", "u8", "u16", "pfx", "pfx1", "bitmap"]), (51, "nsec3param", &["u8", "u8", "u16", "pfx"]),
     (52, "tlsa", &["u8", "u8", "u8", "tail"]), (44, "sshfp", &["u8", "u8", "tail"]), (257, "caa", &["u8", "tag", "tail"]),
     (35, "naptr", &["u16", "u16", "str", "str", "str", "name"]), (61, "openpgpkey", &["tail"]), (63, "zonemd", &["u32", "u8", "u8", "tail"]),
-    (64, "svcb", &["u16", "name", "params"]), (65, "svcb", &["u16", "name", "params"]), (65280, "unknown", &["tail"]), (65281, "unknown", &["tail"]),
+    (45, "ipseckey", &["u8", "gw", "tail1"]), (64, "svcb", &["u16", "name", "params"]), (65, "svcb", &["u16", "name", "params"]), (65280, "unknown", &["tail"]), (65281, "unknown", &["tail"]),
 ];
 
 type ZD = ZoneRecordData<Bytes, ParsedName<Bytes>>;
@@ -514,14 +525,18 @@ fn canon_rd<D: ComposeRecordData>(d: &D) -> Vec<u8> { let mut v = Vec::new(); d.
 
 fn rdata_pair(out: &mut Out, tname: &str, rt: u16, x: &ZD, y: &ZD, c: &str) {
     let (x2, y2) = (x.clone(), y.clone());
-    let res = catch(move || (x2.canonical_cmp(&y2), y2.canonical_cmp(&x2), x2 == y2, y2 == x2, x2.partial_cmp(&y2), canon_rd(&x2), canon_rd(&y2), feed(&x2), feed(&y2)));
-    let (cc, ccr, eq, eqr, pc, bx, by, hx, hy) = match res { Ok(t) => t, Err(e) => { chk(out, false, &format!("rdata_panic_{}", tname), c, &e); return; } };
+    let res = catch(move || (x2.canonical_cmp(&y2), y2.canonical_cmp(&x2), x2 == y2, y2 == x2, x2.partial_cmp(&y2), canon_rd(&x2), canon_rd(&y2)));
+    let (cc, ccr, eq, eqr, pc, bx, by) = match res { Ok(t) => t, Err(e) => { chk(out, false, &format!("rdata_panic_{}", tname), c, &e); return; } };
     let _ = rt;
     chk(out, cc == bx.cmp(&by), &format!("canonical_cmp_not_bytewise_{}", tname), c, &format!("canonical_cmp {} but canonical forms {} vs {}", ord(cc), hex(&bx), hex(&by)));
     chk(out, cc == ccr.reverse(), &format!("canonical_cmp_antisym_{}", tname), c, "");
     chk(out, eq == eqr, &format!("rdata_eq_sym_{}", tname), c, "");
-    chk(out, !eq || hx == hy, &format!("eq_hash_{}", tname), c, &format!("{} vs {}", hex(&hx), hex(&hy)));
     chk(out, (pc == Some(Ordering::Equal)) == eq, &format!("cmp_eq_inconsistent_{}", tname), c, &format!("eq={} cmp={:?}", eq, pc));
+    let (x2, y2) = (x.clone(), y.clone());
+    match catch(move || (feed(&x2), feed(&y2))) {
+        Err(e) => chk(out, false, &format!("rdata_hash_panic_{}", tname), c, &e),
+        Ok((hx, hy)) => chk(out, !eq || hx == hy, &format!("eq_hash_{}", tname), c, &format!("{} vs {}", hex(&hx), hex(&hy))),
+    }
 }
 
 fn gen_rdata(r: &mut Rng) -> (usize, Vec<F>) { let ti = r.below(TYPES.len() as u64) as usize; (ti, TYPES[ti].2.iter().map(|k| gen_f(r, k)).collect()) }
@@ -556,9 +571,15 @@ fn rdata_cases(out: &mut Out, r: &mut Rng, n: u64) {
                     if recs.len() == 3 {
                         let c2 = format!("{} via {}", c, hex(&mbytes));
                         rdata_pair(out, tname, rt, &recs[1], &recs[2], &c2);
-                        chk(out, recs[1] == x && x == recs[1] && recs[1].canonical_cmp(&x) == Ordering::Equal && canon_rd(&recs[1]) == canon_rd(&x) && feed(&recs[1]) == feed(&x),
-                                  &format!("repr_independent_rdata_{}", tname), &c2, "");
-                        chk(out, recs[1].canonical_cmp(&y) == x.canonical_cmp(&y) && (recs[1] == y) == (x == y), &format!("repr_independent_rdata_{}", tname), &c2, "mixed");
+                        let (p1, x2, y2) = (recs[1].clone(), x.clone(), y.clone());
+                        match catch(move || (p1 == x2 && x2 == p1 && p1.canonical_cmp(&x2) == Ordering::Equal && canon_rd(&p1) == canon_rd(&x2),
+                                             p1.canonical_cmp(&y2) == x2.canonical_cmp(&y2) && (p1 == y2) == (x2 == y2))) {
+                            Ok((a, b)) => { chk(out, a, &format!("repr_independent_rdata_{}", tname), &c2, "");
+                                            chk(out, b, &format!("repr_independent_rdata_{}", tname), &c2, "mixed"); }
+                            Err(e) => chk(out, false, &format!("rdata_panic_{}", tname), &c2, &e),
+                        }
+                        let (p1, x2) = (recs[1].clone(), x.clone());
+                        if let Ok(same) = catch(move || feed(&p1) == feed(&x2)) { chk(out, same, &format!("repr_independent_rdata_hash_{}", tname), &c2, ""); }
                     }
                 }
             }
@@ -615,8 +636,11 @@ fn record_cases(out: &mut Out, r: &mut Rng, n: u64) {
         let rb: Rec = Record::new(flat(&ob), Class::from_int(cb), Ttl::from_secs(tb), y.clone());
         out.oracle_case(&c, true, "record");
         let (ra2, rb2) = (ra.clone(), rb.clone());
-        let res = catch(move || (ra2 == rb2, rb2 == ra2, ra2.canonical_cmp(&rb2), rb2.canonical_cmp(&ra2), ra2.partial_cmp(&rb2), feed(&ra2), feed(&rb2)));
-        let (eq, eqr, cc, ccr, pc, ha, hb) = match res { Ok(t) => t, Err(e) => { chk(out, false, "record_panic", &c, &e); continue; } };
+        let res = catch(move || (ra2 == rb2, rb2 == ra2, ra2.canonical_cmp(&rb2), rb2.canonical_cmp(&ra2), ra2.partial_cmp(&rb2)));
+        let (eq, eqr, cc, ccr, pc) = match res { Ok(t) => t, Err(e) => { chk(out, false, "record_panic", &c, &e); continue; } };
+        let (ra2, rb2) = (ra.clone(), rb.clone());
+        // a panic while hashing the record data is reported once, by rdata_pair (rdata_hash_panic_<type>)
+        let (ha, hb) = match catch(move || (feed(&ra2), feed(&rb2))) { Ok(t) => t, Err(_) => { out.count("record_hash_panicked"); continue; } };
         chk(out, eq == eqr, "record_eq_sym", &c, "");
         let only_ttl = oa == ob && ca == cb && rt == rtb && wx == wy && ta != tb;
         chk(out, !eq || ha == hb, if only_ttl { "record_hash_includes_ttl" } else { "record_eq_hash" }, &c, "");
@@ -664,9 +688,12 @@ fn record_cases(out: &mut Out, r: &mut Rng, n: u64) {
                         let recs: Vec<Record<ParsedName<Bytes>, ZD>> = msg.answer().unwrap().filter_map(|rr| rr.ok()).filter_map(|rr| rr.to_record::<ZD>().ok().flatten()).collect();
                         if recs.len() == 2 {
                             let c2 = format!("{} via {}", c, hex(&mbytes));
-                            chk(out, recs[0] == ra && ra == recs[0] && recs[0].canonical_cmp(&ra) == Ordering::Equal && feed(&recs[0]) == feed(&ra), "repr_independent_record", &c2, "self");
-                            chk(out, (recs[0] == recs[1]) == eq && recs[0].canonical_cmp(&recs[1]) == cc && recs[0].canonical_cmp(&rb) == cc && ra.canonical_cmp(&recs[1]) == cc,
-                                      "repr_independent_record", &c2, "pair");
+                            let (q0, q1, ra2, rb2) = (recs[0].clone(), recs[1].clone(), ra.clone(), rb.clone());
+                            match catch(move || (q0 == ra2 && ra2 == q0 && q0.canonical_cmp(&ra2) == Ordering::Equal && feed(&q0) == feed(&ra2),
+                                                 (q0 == q1) == eq && q0.canonical_cmp(&q1) == cc && q0.canonical_cmp(&rb2) == cc && ra2.canonical_cmp(&q1) == cc)) {
+                                Ok((a, b)) => { chk(out, a, "repr_independent_record", &c2, "self"); chk(out, b, "repr_independent_record", &c2, "pair"); }
+                                Err(e) => chk(out, false, "record_panic", &c2, &e),
+                            }
                         }
                     }
                 }
@@ -727,12 +754,12 @@ fn main() {
     let mut out = Out::new(&a, "C04", 60);
     let mut r = Rng::new(a.seed);
     let k = if a.thorough { 10 } else { 1 } * a.scale;
-    label_cases(&mut out, &mut r, 1500 * k);
-    name_cases(&mut out, &mut r, 2500 * k);
-    charstr_cases(&mut out, &mut r, 1200 * k);
-    nsec_cases(&mut out, &mut r, 300 * k);
-    svcb_cases(&mut out, &mut r, 300 * k);
-    rdata_cases(&mut out, &mut r, 5000 * k);
-    record_cases(&mut out, &mut r, 2500 * k);
+    label_cases(&mut out, &mut r, 3000 * k);
+    name_cases(&mut out, &mut r, 6000 * k);
+    charstr_cases(&mut out, &mut r, 2500 * k);
+    nsec_cases(&mut out, &mut r, 600 * k);
+    svcb_cases(&mut out, &mut r, 600 * k);
+    rdata_cases(&mut out, &mut r, 16000 * k);
+    record_cases(&mut out, &mut r, 6000 * k);
     out.finish(&[]);
 }
